@@ -63,7 +63,7 @@ def envOf (T : TotalOracles) (c : Ctx) (leaf : Bytes) (annex : Option Bytes) : S
   ⟨T.toOracles, c.tx, ScriptSpec.Flags.ofMask c.flags, c.sv, {}, leaf, annex⟩
 
 /-- simulation relation between the loop variables of the model and the spec's interpreter state -/
-structure Rel (c : Ctx) (st : St) (s : ScriptSpec.State) : Prop where
+structure Rel (c : Ctx) (leaf : Bytes) (annex : Option Bytes) (st : St) (s : ScriptSpec.State) : Prop where
   stack : st.stack = s.stack
   alt : st.alt = s.alt
   cond : s.cond = condOf st.exe
@@ -71,18 +71,20 @@ structure Rel (c : Ctx) (st : St) (s : ScriptSpec.State) : Prop where
   code : c.p.drop st.pbegin = s.code
   csp : st.ed.codesepPos = s.codesepPos
   weight : st.ed.weightLeft = s.weightLeft
+  leaf : st.ed.tapleafHash = leaf
+  annex : st.ed.annexHash = annex
 
 /-- outcomes agree: both succeed in related states, or both fail (a model panic inside the loop is a failure
     of evalScript; the spec names the error) -/
-inductive Agree (c : Ctx) : Res St → ScriptSpec.E ScriptSpec.State → Prop
-  | ok {a b} : Rel c a b → Agree c (.ok a) (.ok b)
-  | fail {e} : Agree c .fail (.error e)
-  | panic {e} : Agree c .panic (.error e)
+inductive Agree (c : Ctx) (leaf : Bytes) (annex : Option Bytes) : Res St → ScriptSpec.E ScriptSpec.State → Prop
+  | ok {a b} : Rel c leaf annex a b → Agree c leaf annex (.ok a) (.ok b)
+  | fail {e} : Agree c leaf annex .fail (.error e)
+  | panic {e} : Agree c leaf annex .panic (.error e)
 
-theorem agree_ok (c : Ctx) (a : St) (b : ScriptSpec.State) : Agree c (.ok a) (Except.ok b) ↔ Rel c a b :=
+theorem agree_ok (c : Ctx) (leaf : Bytes) (annex : Option Bytes) (a : St) (b : ScriptSpec.State) : Agree c leaf annex (.ok a) (Except.ok b) ↔ Rel c leaf annex a b :=
   ⟨fun h => by cases h; assumption, Agree.ok⟩
-theorem agree_fail (c : Ctx) (e : ScriptSpec.ScriptError) : Agree c .fail (Except.error e) ↔ True := ⟨fun _ => trivial, fun _ => Agree.fail⟩
-theorem agree_panic (c : Ctx) (e : ScriptSpec.ScriptError) : Agree c .panic (Except.error e) ↔ True := ⟨fun _ => trivial, fun _ => Agree.panic⟩
+theorem agree_fail (c : Ctx) (leaf : Bytes) (annex : Option Bytes) (e : ScriptSpec.ScriptError) : Agree c leaf annex .fail (Except.error e) ↔ True := ⟨fun _ => trivial, fun _ => Agree.fail⟩
+theorem agree_panic (c : Ctx) (leaf : Bytes) (annex : Option Bytes) (e : ScriptSpec.ScriptError) : Agree c leaf annex .panic (Except.error e) ↔ True := ⟨fun _ => trivial, fun _ => Agree.panic⟩
 
 theorem envOf_f (T : TotalOracles) (c : Ctx) (l : Bytes) (a : Option Bytes) : (envOf T c l a).f = ScriptSpec.Flags.ofMask c.flags := rfl
 theorem envOf_sv (T : TotalOracles) (c : Ctx) (l : Bytes) (a : Option Bytes) : (envOf T c l a).sv = c.sv := rfl
@@ -97,8 +99,8 @@ theorem flag_const (f : Nat) : has f VER_CONST_SCRIPTCODE = (ScriptSpec.Flags.of
 theorem flag_nops (f : Nat) : has f VER_BLOCK_OPS = (ScriptSpec.Flags.ofMask f).discourageNops := by
   unfold VER_BLOCK_OPS; rw [has_testBit]; rfl
 
-theorem tail_agree (c : Ctx) (X : Res St) (Y : ScriptSpec.E ScriptSpec.State) (h : Agree c X Y) :
-    Agree c (X >>= fun st' => if st'.stack.length + st'.alt.length > 1000 then Res.fail else pure st')
+theorem tail_agree (c : Ctx) (leaf : Bytes) (annex : Option Bytes) (X : Res St) (Y : ScriptSpec.E ScriptSpec.State) (h : Agree c leaf annex X Y) :
+    Agree c leaf annex (X >>= fun st' => if st'.stack.length + st'.alt.length > 1000 then Res.fail else pure st')
       (Y >>= fun st => if st.stack.length + st.alt.length > 1000 then (do throw ScriptSpec.ScriptError.STACK_SIZE; pure st) else pure st) := by
   cases h with
   | fail => exact Agree.fail
@@ -118,15 +120,15 @@ theorem tail_agree (c : Ctx) (X : Res St) (Y : ScriptSpec.E ScriptSpec.State) (h
 theorem stepAt_frame (T : TotalOracles) (c : Ctx) (hO : c.O = T.toOracles) (leaf : Bytes) (annex : Option Bytes)
     (st : St) (s : ScriptSpec.State) (op : Op) (i : ScriptSpec.Instr) (idx pos : Nat)
     (hop : i.op = op.opcode) (hdata : i.data = op.push.getD [])
-    (hR : Rel c st s)
-    (H : op.opcode > 0x4e → ∀ st1 s1, Rel c st1 s1 →
+    (hR : Rel c leaf annex st s)
+    (H : op.opcode > 0x4e → ∀ st1 s1, Rel c leaf annex st1 s1 →
         (st1.exe.all id = true ∨ (0x63 ≤ op.opcode ∧ op.opcode ≤ 0x68)) →
-        Agree c (execOp c st1 op.opcode idx pos (st1.exe.all id))
+        Agree c leaf annex (execOp c st1 op.opcode idx pos (st1.exe.all id))
           (ScriptSpec.execOpcode (envOf T c leaf annex) s1 i (st1.exe.all id) pos)) :
-    Agree c (stepAt c st op idx pos) (ScriptSpec.execInstr (envOf T c leaf annex) s i pos) := by
-  obtain ⟨h1, h2, h3, h5, h6, h7, h8⟩ := hR
+    Agree c leaf annex (stepAt c st op idx pos) (ScriptSpec.execInstr (envOf T c leaf annex) s i pos) := by
+  obtain ⟨h1, h2, h3, h5, h6, h7, h8, h9, h10⟩ := hR
   obtain ⟨sstack, salt, scond, sop, scode, scsp, sw⟩ := s
-  simp only at h1 h2 h3 h5 h6 h7 h8
+  simp only at h1 h2 h3 h5 h6 h7 h8 h9 h10
   subst h3 h5
   unfold stepAt ScriptSpec.execInstr
   simp only [hop, hdata, condOf_allTrue, envOf_f, envOf_sv,
@@ -144,7 +146,7 @@ theorem stepAt_frame (T : TotalOracles) (c : Ctx) (hO : c.O = T.toOracles) (leaf
     · by_cases h201 : st.opcnt + 1 > 201 <;>
         simp [hp, hd, hcs, hcnt, h201, agree_fail, agree_panic, bind, Except.bind, throw, throwThe, MonadExceptOf.throw, pure, Except.pure]
     · simp [hp, hd, hcs, hcnt, agree_fail, agree_panic, bind, Except.bind, throw, throwThe, MonadExceptOf.throw, pure, Except.pure]
-  have main : ∀ n, Agree c
+  have main : ∀ n, Agree c leaf annex
       ((if (st.exe.all id && decide (op.opcode ≤ 78)) = true then
             if (has c.flags VER_MINDATA && !checkMinimalPush (op.push.getD []) op.opcode) = true then Res.fail
             else Res.ok (({ stack := st.stack, alt := st.alt, exe := st.exe, pbegin := st.pbegin, opcnt := n, ed := st.ed } : St).push (op.push.getD []))
@@ -162,14 +164,14 @@ theorem stepAt_frame (T : TotalOracles) (c : Ctx) (hO : c.O = T.toOracles) (leaf
         fun st => if st.stack.length + st.alt.length > 1000 then (do throw ScriptSpec.ScriptError.STACK_SIZE; pure st) else pure st) := by
     intro n
     apply tail_agree
-    have hR1 : Rel c { stack := st.stack, alt := st.alt, exe := st.exe, pbegin := st.pbegin, opcnt := n, ed := st.ed } ({ stack := sstack, alt := salt, cond := condOf st.exe, opCount := n, code := scode, codesepPos := scsp, weightLeft := sw } : ScriptSpec.State) :=
-      ⟨h1, h2, rfl, rfl, h6, h7, h8⟩
+    have hR1 : Rel c leaf annex { stack := st.stack, alt := st.alt, exe := st.exe, pbegin := st.pbegin, opcnt := n, ed := st.ed } ({ stack := sstack, alt := salt, cond := condOf st.exe, opCount := n, code := scode, codesepPos := scsp, weightLeft := sw } : ScriptSpec.State) :=
+      ⟨h1, h2, rfl, rfl, h6, h7, h8, h9, h10⟩
     by_cases hpush : (st.exe.all id && decide (op.opcode ≤ 78)) = true
     · simp only [hpush, ↓reduceIte]
       by_cases hm : (has c.flags VER_MINDATA && !checkMinimalPush (op.push.getD []) op.opcode) = true
       · simp [hm, agree_fail, throw, throwThe, MonadExceptOf.throw]
       · simp only [hm, Bool.false_eq_true, ↓reduceIte, agree_ok, St.push, ScriptSpec.push, pure, Except.pure]
-        exact ⟨by simp [h1], h2, rfl, rfl, h6, h7, h8⟩
+        exact ⟨by simp [h1], h2, rfl, rfl, h6, h7, h8, h9, h10⟩
     · simp only [hpush, Bool.false_eq_true, ↓reduceIte]
       by_cases hex : (st.exe.all id || decide (99 ≤ op.opcode) && decide (op.opcode ≤ 104)) = true
       · simp only [hex, ↓reduceIte]
